@@ -580,10 +580,10 @@ def code_catalogue(tier):
     PF = "PureFockSimulator"
     pf_pre = [T("FockStateVector", (), fock_amplitude_map={"map": [[[1, 0], 0.6], [[0, 1], {"c": [0.0, 0.8]}]]})]
     for cls, names, modes in (("Kerr", ("xi",), (0,)), ("CrossKerr", ("xi",), (0, 1)), ("Phaseshifter", ("phi",), (1,)), ("CubicPhase", ("gamma",), (0,))):
-        for kw in _lat2(names, lat):
+        for kw in _lat2(names, lat[::3] if tier == "quick" and cls in ("Phaseshifter", "CubicPhase") else lat):
             add(PF, 2, pf_pre + [T(cls, modes, **kw)], tag="lattice")
     # passive gates cost ~0.2 s per run on the Fock simulators: a cross through the lattice instead of the square
-    for v in lat:
+    for v in (lat[::3] if tier == "quick" else lat):
         add(PF, 2, pf_pre + [T("Beamsplitter", (1, 0), theta=v, phi=0.81)], tag="lattice")
         add(PF, 2, pf_pre + [T("Beamsplitter", (1, 0), theta=0.37, phi=v)], tag="lattice")
     add(PF, 2, [T("NumberState", (), occupation_numbers=[1, 1]), T("Interferometer", (0, 1), matrix={"mat": "U2g"})], tag="matrix")
@@ -636,11 +636,11 @@ def config_catalogue(tier):
         ],
         "PureFockSimulator": [
             [T("NumberState", (), occupation_numbers=[1, 1]), T("Kerr", (0,), xi=0.1), T("CrossKerr", (0, 1), xi=0.2)],
-            [T("NumberState", (), occupation_numbers=[1, 1]), T("Beamsplitter", (0, 1), theta=0.3, phi=0.2), T("ParticleNumberMeasurement", (0,))],
+            [T("NumberState", (), occupation_numbers=[1, 1]), T("Kerr", (1,), xi=0.3), T("ParticleNumberMeasurement", (0,))],
         ],
         "FockSimulator": [
             [T("DensityMatrix", (), ket=[1, 1], bra=[1, 1]), T("Kerr", (0,), xi=0.1), T("CrossKerr", (0, 1), xi=0.2)],
-            [T("DensityMatrix", (), ket=[1, 1], bra=[1, 1]), T("Beamsplitter", (0, 1), theta=0.3, phi=0.2), T("ParticleNumberMeasurement", ())],
+            [T("DensityMatrix", (), ket=[1, 1], bra=[1, 1]), T("Kerr", (1,), xi=0.3), T("ParticleNumberMeasurement", ())],
         ],
         "PassiveSimulator": [
             [T("NumberState", (), occupation_numbers=[1, 1]), T("Beamsplitter", (0, 1), theta=0.3, phi=0.2)],
@@ -1033,7 +1033,7 @@ def nest_cases(level, tier):
                     out.append((inner, (r,), r2))
         return out
     inners_small = inners[:6] + inners[6::5]
-    for inner in inners_small if level == 2 or tier != "quick" else inners[:6]:
+    for inner in inners_small if level == 2 or tier != "quick" else inners[:3]:
         need = _needs(inner)
         for r1 in regs_all:
             if len(r1) and len(r1) < need:
@@ -1204,7 +1204,7 @@ def alg_trees(k, tier):
             for leaves in itertools.product(leaves_full(), repeat=3):
                 for dec in one:
                     yield R.build(shape, leaves, dec)
-            for leaves in itertools.product(leaves_small(), repeat=3):
+            for leaves in itertools.product(leaves_min() if tier == "quick" else leaves_small(), repeat=3):
                 for dec in two:
                     yield R.build(shape, leaves, dec)
         return
